@@ -115,7 +115,7 @@ class PositionAndLookPacket(Packet):
     # NOTE: modifying the object retrieved from this property will not change
     # the packet; it can only be changed by attribute or property assignment.
     position_and_look = multi_attribute_alias(
-        PositionAndLook, 'x', 'feet_y', 'z', 'yaw', 'pitch')
+        PositionAndLook, x='x', y='feet_y', z='z', yaw='yaw', pitch='pitch')
 
 
 class TeleportConfirmPacket(Packet):
